@@ -1,7 +1,7 @@
 import KeepVerif.DriverLib
 import KeepVerif.Model.C08
 open KeepVerif
-open KeepVerif.C07 (toKey toIndex)
+open KeepVerif.C07 (toKey toIndex Msg Ev memberGroup received)
 open KeepVerif.C08
 
 namespace DrvC08
@@ -17,6 +17,31 @@ def parseTuples (s : String) : Option (List (List Nat)) :=
 
 def subsetsOf (s : String) : Option (List (List Nat)) :=
   (s.splitOn "|").mapM fun t => (if t = "-" then some [] else (t.splitOn ".").mapM String.toNat?)
+
+def parseMsg (seq : Nat) (s : String) : Option Msg :=
+  match (s.splitOn ".").mapM String.toNat? with
+  | some [k, sender, op, q] => some ⟨k, sender, op, q, seq⟩
+  | _ => none
+
+def parseEvents (s : String) : Option (List Ev) :=
+  let rec go (seq : Nat) : List String → Option (List Ev)
+    | [] => some []
+    | t :: ts =>
+      if t = ">" then (go (seq + 1) ts).map (Ev.next :: ·)
+      else do
+        let m ← parseMsg seq t
+        let rest ← go (seq + 1) ts
+        pure (Ev.recv m :: rest)
+  go 0 (splitList s)
+
+def showRecvd (l : List Msg) : String :=
+  showList (l.map fun m => s!"{m.sender}.{m.seq}")
+
+def parsePairs (s : String) : Option (List (Nat × Nat)) :=
+  (splitList s).mapM fun t =>
+    match (t.splitOn ".").mapM String.toNat? with
+    | some [a, b] => some (a, b)
+    | _ => none
 
 def model (line : String) : String :=
   match splitWs line with
@@ -42,6 +67,14 @@ def model (line : String) : String :=
       let sg := newSignature r s rec
       s!"r={sg.r} s={sg.s} v={sg.recoveryID}"
     | _, _, _ => "bad-op"
+  | ["srecv", n, self, excl, seats, sess, evs] =>
+    match n.toNat?, self.toNat?, parseNats excl, parseNats seats, sess.toNat?, parseEvents evs with
+    | some n, some self, some excl, some seats, some sess, some evs =>
+      let g := memberGroup n self excl
+      let s := sRun self sess g seats evs
+      let rs := (List.range 10).map fun k => s!"r{k}={showRecvd (received s.hist k)}"
+      s!"st={s.idx} can={if sCanTransition s.idx g s.hist then 1 else 0} n={s.hist.length} " ++ " ".intercalate rs
+    | _, _, _, _, _, _ => "bad-op"
   | ["sign", n, t, excl, subsets, _msg] =>
     match n.toNat?, t.toNat?, parseNats excl, subsetsOf subsets with
     | some n, some _t, some excl, some subs =>
@@ -73,6 +106,16 @@ def monitor (op obs : String) : String :=
     | some r, some s, some r', some s' =>
       if natOfBytes r == r' && natOfBytes s == s' then "ok" else "FAIL signature-fields"
     | _, _, _, _ => "FAIL unparsable-observation"
+  | ["srecv", n, self, excl, seats, sess, evs] =>
+    match n.toNat?, self.toNat?, parseNats excl, parseNats seats, sess.toNat?, parseEvents evs with
+    | some n, some self, some excl, some seats, some sess, some evs =>
+      let lists := (List.range 10).mapM fun k => (field o s!"r{k}").bind parsePairs
+      match lists, (field o "st").bind String.toNat?, field o "can" with
+      | some lists, some st, some can =>
+        if holdsSrecv self sess (memberGroup n self excl) seats evs st (can == "1") lists then "ok"
+        else "FAIL signing-unadmitted-or-duplicate-message-or-wrong-CanTransition"
+      | _, _, _ => "FAIL unparsable-observation"
+    | _, _, _, _, _, _ => "FAIL bad-op"
   | ["sign", _n, _t, _excl, _subsets, _msg] =>
     match field o "dkg", field o "ks", field o "sigs" with
     | some d, some ks, some sigs =>
